@@ -601,8 +601,9 @@ def setup():
     ok, out = build(pregen=pregen_all)
     print(out[-3000:])
     if not ok:
-        print("setup: coq build failed")
-        return 1
+        # every check rebuilds and verifies the .vo files it needs (make -k builds the rest);
+        # a file that does not build is reported by the check that depends on it
+        print("setup: some Coq files did not build (see above); the checks that need them will report it")
     return 0
 
 
